@@ -20,10 +20,40 @@ let dist_seg (px, py) (x1, y1) (x2, y2) =
 let edges_f p = List.concat_map (fun c -> match c with [] -> [] | f :: _ ->
   let rec go = function [] -> [] | [v] -> [(v, f)] | v :: (w :: _ as r) -> (v, w) :: go r in go c) (List.map (List.map (fun (x, y) -> (BQ.to_float x, BQ.to_float y))) p)
 
+(* Three or more input edges through one point strictly inside a scan beam (a point whose y is the y of no input vertex): the
+   configuration on which the sweep's ordering of simultaneous intersections is decided by rounding noise (known finding F-C05-1).
+   Exact rational arithmetic on the input polygons. *)
+let edges_q (p : (BQ.t * BQ.t) list list) = List.concat_map (fun c -> match c with [] -> [] | f :: _ ->
+  let rec go = function [] -> [] | [v] -> [(v, f)] | v :: (w :: _ as r) -> (v, w) :: go r in go c) p
+let concurrent_inside_a_beam (a : (BQ.t * BQ.t) list list) (b : (BQ.t * BQ.t) list list) : bool =
+  let es = Array.of_list (List.filter (fun ((_, y1), (_, y2)) -> not (BQ.equal y1 y2)) (edges_q a @ edges_q b)) in
+  let ys = List.concat_map (List.map snd) (a @ b) in
+  let n = Array.length es in
+  let tbl = Hashtbl.create 64 in
+  let between v lo hi = BQ.leq (BQ.min lo hi) v && BQ.leq v (BQ.max lo hi) in
+  for i = 0 to n - 1 do for j = i + 1 to n - 1 do
+    let ((x1, y1), (x2, y2)) = es.(i) and ((x3, y3), (x4, y4)) = es.(j) in
+    let d1x = BQ.sub x2 x1 and d1y = BQ.sub y2 y1 and d2x = BQ.sub x4 x3 and d2y = BQ.sub y4 y3 in
+    let den = BQ.sub (BQ.mul d1x d2y) (BQ.mul d1y d2x) in
+    if not (BQ.equal den BQ.zero) then begin
+      let t = BQ.div (BQ.sub (BQ.mul (BQ.sub x3 x1) d2y) (BQ.mul (BQ.sub y3 y1) d2x)) den in
+      let px = BQ.add x1 (BQ.mul t d1x) and py = BQ.add y1 (BQ.mul t d1y) in
+      if between px x1 x2 && between py y1 y2 && between px x3 x4 && between py y3 y4 && not (List.exists (BQ.equal py) ys) then begin
+        let key = BQ.to_string px ^ "," ^ BQ.to_string py in
+        let cur = try Hashtbl.find tbl key with Not_found -> [] in
+        Hashtbl.replace tbl key (List.sort_uniq compare (i :: j :: cur))
+      end
+    end
+  done done;
+  Hashtbl.fold (fun _ l acc -> acc || List.length l >= 3) tbl false
+
 let run (c : string) (obs : string) : string * string * string =
   let errs = ref [] in
   let add k = if not (List.mem k !errs) then errs := k :: !errs in
-  if obs = "P" then add "kind=panic"; if obs = "HANG" then add "kind=hang";
+  (* a panic is identified by its call site: "P@f<g" gives kind=panic.f.g (the two innermost frames of package poly) *)
+  if String.length obs >= 1 && obs.[0] = 'P' then
+    add ("kind=panic" ^ (if String.length obs > 2 then "." ^ String.map (fun ch -> if ch = '<' then '.' else ch) (String.sub obs 2 (String.length obs - 2)) else ""));
+  if obs = "HANG" then add "kind=hang";
   let verdict () = if !errs = [] then "ok" else "FAIL " ^ String.concat "," (List.rev !errs) in
   match String.index_opt c ' ' with
   | None -> ("BADCASE", "ok", "bad")
@@ -78,7 +108,12 @@ let run (c : string) (obs : string) : string * string * string =
            ignore tested
          end
        end;
-       (obs, verdict (), kind ^ "-" ^ op)
+       (* failures on inputs with concurrent edges inside a scan beam carry that fact in their kind (see known_findings.txt) *)
+       let conc = lazy (concurrent_inside_a_beam a b) in
+       errs := List.map (fun k ->
+         if (String.length k >= 10 && String.sub k 0 10 = "kind=panic" || k = "kind=sample-point-disagrees-with-the-pointwise-combination") && Lazy.force conc
+         then k ^ ".concurrent-edges" else k) !errs;
+       (obs, verdict (), kind ^ "-" ^ op ^ (if kind = "gen" && Lazy.force conc then "+concurrent" else ""))
      | _ -> ("BADCASE", "ok", "bad"))
 
 let () = drive run
